@@ -95,10 +95,9 @@ CHECKS["C16"] = dict(
           "(asis_edge_face_dist_wrong, asis_normalize_global_norm, asis_mpas_dual_swapped). Tie: differential run on generated grids "
           "(n_face>n_node and <n_node, boundary edges; coordinates supplied as lon/lat or Cartesian of unit / one / mixed radii, face centres absent / lon-lat / Cartesian of any radius / un-normalised corner mean, source-supplied edge tables with the two faces in either order, random access history incl. normalize_cartesian_coordinates() and distances-first; synthetic MPAS primal/dual, MPAS/Exodus/UGRID samples) where the oracle measures between the positions the source supplied and the Lean "
           "driver evaluates the specs on the implementation's output: differences/gradients bit-exactly, distances against the atan2 "
-          "oracle under a conditioning-aware tolerance, unit norm 1e-12."),
-    note=_TB + "Modelled, not verified: IEEE rounding/libm (float clauses are tolerance tests), NumPy fancy indexing and xarray dims, "
-         "numba kernels; centres are the source-supplied positions as directions; where the source supplies none, the grid's own face_lon/face_lat (C04). Zero-gradient slices (0/0) are not judged for unit "
-         "norm.",
+          "oracle under a conditioning-aware tolerance, unit norm 1e-12. The angle the oracle returns lies in [0, pi] and a one-argument arctan(sin/cos) is negative, hence wrong, for every obtuse arc (oracleAngle_range, arctan_form_wrong); the exact cosine never leaves [-1, 1] (lawcos_mem_Icc, arccos_clamp_lawcos); the tolerance of the float clause is a theorem: an error delta in the cosine of an arc in [a, pi-a] moves arccos by at most delta / sin a (angle_conditioning, arccos_error_bound). Generators include coarse grids with supplied centres 90 deg / obtuse / almost and exactly 180 deg apart (incl. pairs searched so that the cosine sum rounds below -1; this exposed nan distances for antipodal centres, repaired by fix 48f4ea17), sub-grids (Grid.isel, parent tables computed first or not) and dask-chunked grids; a zero-gradient slice under normalize=True must be all-NaN or all-zero."),
+    note=_TB + "Modelled, not verified: IEEE rounding/libm: the tolerance's conditioning term is proved (arccos_error_bound), the constant 64 eps for the rounding of the cosine sum itself is assumed, NumPy fancy indexing and xarray dims, "
+         "numba kernels; centres are the source-supplied positions as directions; where the source supplies none, the grid's own face_lon/face_lat (C04). A zero-gradient slice (0/0) is judged to be all-NaN (the model's IEEE value) or all-zero. Driver/harness command names are cross-checked at start-up (C16.commands).",
     technique="Lean 4 theorems (ℝ geometry + ordered-field operator laws, typed indices) + differential correspondence with Lean-evaluated spec and geodesic oracle",
 )
 
@@ -132,12 +131,12 @@ CHECKS["C18"] = dict(
           "is node k, data untouched, dims swapped). asis_chord_angle_misorders/asis_order_wrong_ring keep the snapshot's defect "
           "(chord angle instead of tangent-plane angle, fixed by c1960934) as an exact regression witness over the reals. "
           "TESTED ONLY (Lean driver evaluates on the implementation's output, differential run): ring clause (consecutive corners "
-          "share an edge at the node, C03 incidence model), counter-clockwise clause (polynomial sign tests, no arccos), both "
+          "share an edge at the node, C03 incidence model), counter-clockwise clause on the implementation's Float output (proved for the model over exact reals: model_row_ccw), both "
           "judged where the face centres are angularly ordered like the face ring; exact table = Float model; dual node = face "
           "centre; UxDataArray.get_dual dims/values/grid; interpreted vs JIT; chains get_dual->get_dual->get_dual on irregular partial and closed "
           "meshes, each grid judged against its own parent (the parent's node_face checked against C03's Lean transpose); source-supplied "
-          "node_face_connectivity with padding anywhere. order_scale_invariant (the repaired key depends only on directions: any positive scaling of the central node and of each centre - Earth radius in km/m, mixed radii - leaves every key, hence the ring, unchanged; asis_unit_normal_helper_wrong: a projection v-(v.c)c without the division by |c|^2 misorders the witness at radius 2). Coordinate form randomised per case (lon/lat only, Cartesian at unit radius / a radius in 1e-3..1e7 incl. 6371.229 and 6371229 / mixed radii, face centres unsupplied / lon-lat / Cartesian at their own radius, with/without normalize_cartesian_coordinates()); the ring and counter-clockwise oracle works on directions."),
-    note=_TB + "Modelled, not verified: that face centres around a node are angularly ordered like the face ring (mesh geometry), IEEE "
+          "node_face_connectivity with padding anywhere. order_scale_invariant (the repaired key depends only on directions: any positive scaling of the central node and of each centre - Earth radius in km/m, mixed radii - leaves every key, hence the ring, unchanged; asis_unit_normal_helper_wrong: a projection v-(v.c)c without the division by |c|^2 misorders the witness at radius 2). Coordinate form randomised per case (lon/lat only, Cartesian at unit radius / a radius in 1e-3..1e7 incl. 6371.229 and 6371229 / mixed radii, face centres unsupplied / lon-lat / Cartesian at their own radius, with/without normalize_cartesian_coordinates()); the ring and counter-clockwise oracle works on directions. construct_faces_row_local / construct_faces_schedule_independent (row j depends only on the j-th kept node; with the input-only write position the per-node iterations give the same table in any order - thread-count independence; numba thread count 1/2/7/16 is a per-case dimension); model_row_ccw with key_lt_iff_before (over exact reals and for ANY valence the ring returned by the repaired algorithm satisfies the specification's own ccwSorted predicate, under general position only - every centre in a defined half turn from the first, no two in the same direction; distinct keys and keys in (0,2pi) are consequences: keyWith_range, key_ne_of_before)."),
+    note=_TB + "Not proved: that the counter-clockwise order of the face centres around a node is the ring of edge-sharing faces (mesh geometry; decided per node by the Lean driver), IEEE rounding (model_row_ccw is over exact reals), numba's actual thread schedules (any schedule is covered at the model level by construct_faces_schedule_independent), IEEE "
          "rounding / libm arccos, numba compilation, from_topology/xarray storage, face centres themselves (C04). UxDataset.get_dual "
          "cannot run under the installed xarray.",
     technique="Lean 4 theorems (any table, any ordered key type) + differential correspondence with Lean-evaluated discrete and sign-test spec",
@@ -146,7 +145,7 @@ CHECKS["C18"] = dict(
 CHECKS["C01"] = dict(
     text=("Lean theorems over executable reader models (Model/Readers.lean), for meshes of ANY size/width/node count: "
           "UxVerif.C01.ugrid_roundtrip / topology_roundtrip (decode (encode d w m) = ok (pad w m) for every dialect meeting the decidable "
-          "DialectOK/TopoOK: start_index 0/1/absent, fill int/NaN/NaN-attr/none, any dtype, extra width), decodeUgrid_table_local + ugrid_dataset_roundtrip (every connectivity table of a UGRID dataset - face_node and the optional edge_node/edge_face/face_edge/face_face/node_face/node_edge - decodes from its OWN variable only; a dataset whose tables are each written in an independently drawn dialect decodes table by table to the standard table of that table's element lists), mpas_primal_roundtrip (any padding "
+          "DialectOK/TopoOK: start_index 0/1/absent, fill int/NaN/NaN-attr/none, any dtype, extra width), decodeUgrid_table_local + ugrid_dataset_roundtrip (every connectivity table of a UGRID dataset - face_node and the optional edge_node/edge_face/face_edge/face_face/node_face/node_edge - decodes from its OWN variable only; a dataset whose tables are each written in an independently drawn dialect decodes table by table to the standard table of that table's element lists), ugrid_undeclared_decodes (a table without start_index decodes to its element lists counted from the lowest index it uses) and undeclared_base_unambiguous_iff (it decodes to its element lists iff it uses index 0: the last clause of DialectOK is the exact boundary of decodability, not an assumption); sniff_rejects_iff / sniff_mpas_iff / sniff_ugrid_iff over the transcription Readers.sniff of _parse_grid_type (a dataset is rejected as unknown format iff it carries no marker; which reader an accepted one reaches), mpas_primal_roundtrip (any padding "
           "content), mpas_dual_roundtrip, mpas_zeros_reindex / mpas_cells_reindex (supplied tables carried over entrywise, incl. per-cell tables with missing entries inside the valid prefix), esmf_roundtrip, exodus_roundtrip/"
           "exodus_count (any number/order of blocks), icon_roundtrip, geos_corners/geos_order/geos_count/geos_in_range/geos_cyclic, "
           "scrip_positions/scrip_nodes_nodup/scrip_in_range, vertices_positions, rings_positions (decoded corner positions = source positions, "
@@ -156,10 +155,10 @@ CHECKS["C01"] = dict(
           "in which the Lean predicate Readers.Spec is evaluated by the driver on the implementation's face_node_connectivity (node numbers "
           "mapped to source nodes by position), the Lean model must equal the implementation up to the start corner, and the harness-side "
           "encoding is compared with Lean's encodeUgrid/encodeTopology; UGRID sources carry optional tables each in its own dialect; MPAS sources include regional meshes and a cut-out of the sample file with all optional tables; every carried table is compared entry by entry with the Lean decoders; every in-memory source is opened repeatedly (primal->dual->primal) and snapshotted (signature .../source-modified-by-reading); 16 usable sample files judged against an independent raw decoding. "
-          "dtype, _FillValue, lon/lat ranges, n_node, carried-over centres/tables/areas are run-time assertions (test level)."),
+          "dtype, _FillValue, lon/lat ranges, n_node, carried-over centres/tables/areas are run-time assertions (test level). A malformed-input stream (outside the quantifier, never a verdict) compares the reader reached / rejection with `sniff` and records accept/reject for malformed sources per reader; ambiguous undeclared-base tables are generated and must equal the theorem's right-hand side in both model and implementation; Exodus sources include >= 10 blocks and gapped block numbering."),
     note=_TB + "Modelled, not verified: netCDF4/xarray decoding (_FillValue masking), geopandas/pyogrio parsing, NumPy astype/np.unique/reshape, "
          "float rounding of rad2deg and xyz->lonlat (positions compared with chord tolerance 1e-7). GEOS-CS reference orientation is the "
-         "lattice perimeter order. MPAS dual only for closed meshes of valence >= 3. Sample files > 3600 faces: Spec on sampled chunks in the quick tier. An undeclared-base table that does not use its lowest index is ambiguous: generated, recorded, not judged. The malformed-input stream of DESIGN §3 was not built.",
+         "lattice perimeter order. MPAS dual only for closed meshes of valence >= 3. Sample files > 3600 faces: Spec on sampled chunks in the quick tier. An undeclared-base table that does not use index 0 is outside the quantifier (proved boundary); model and implementation are compared on it, no verdict. Known model/implementation difference outside the quantifier: a NaN entry that is not the declared fill is rejected by the model and silently turned into the fill value by the implementation. Per-reader decode_rejects_iff theorems were not built.",
     technique="Lean 4 theorems (per-dialect round trips, index arithmetic, ordered-field laws) over hand models + differential correspondence with Lean-evaluated spec",
 )
 
@@ -195,7 +194,7 @@ CHECKS["C12"] = dict(
           "metric meets the hypotheses: chordSq_pos); IDW over every linear ordered field, every eps>0, every natural or real power>=0 "
           "(natPow_ok, rpow_ok): idw_weights_nonneg, idw_weights_sum_one, idw_antitone, idw_between_min_max, idw_const, and end to end incl. "
           "selection and gather idwAt_between_min_max / idwAt_const / idwAt_weights_meet_spec; chord_le_iff_arc_le (cartesian order = great-circle "
-          "order on unit vectors); remap_dims, remap_shape, kind_by_dim (element kind by dimension NAME), k_guard; remapNN_depends_only_on_coords / remapIDW_depends_only_on_coords (a remap depends on the two grids only through the centre coordinates they report, not on identity or Grid.__eq__), remapNN_identity_of_same_points, counterexample shortcut_on_equal_grids_wrong; as-is counterexamples "
+          "order on unit vectors); remap_dims, remap_shape, kind_by_dim (element kind by dimension NAME), k_guard; remapNN_depends_only_on_coords / remapIDW_depends_only_on_coords (a remap depends on the two grids only through the centre coordinates they report, not on identity or Grid.__eq__), remapNN_identity_of_same_points, counterexample shortcut_on_equal_grids_wrong; knnAnswerB_sound, kNearest_is_answer, nn_from_tree_meets_spec, idw_from_tree_between, answer_unique, value_from_tree_eq_model (nothing is assumed about the tree: from the Lean judgement of its per-case answer follow the NN spec, convexity and weight spec of what the code computes from it, and equality with the model when no two sources are equally far); remap_result_grid_is_destination (dims, shape and attached grid OBJECT for every size) with counterexample fastpath_keeps_source_grid; as-is counterexamples "
           "asis_kind_by_length, asis_single_destination_drops_axis, asis_idw_single_destination_raises, asis_k_guard_refuses_admissible with "
           "partial theorems (snapshot defects repaired by fixes 9bf354d9, 6e6dffe2, 52d879b4). Tie: differential run through UxDataArray.remap on "
           "generated grid pairs (n_node=n_face and n_node=n_edge grids, single-face destinations, file-supplied lon/lat and xyz centres, MPAS "
@@ -204,11 +203,11 @@ CHECKS["C12"] = dict(
           "nnSpecB / convexity (withinB) on the implementation's output; one-hot data expose the implementation's weights, judged by weightsOkB "
           "(support = the k nearest, >=0, sum 1, non-increasing) and compared with the model. Histories (remap -> change the source's / "
           "destination's node, face or edge coordinates through the public setters or construct_face_centers -> remap again, same and other "
-          "coordinate type, all three source kinds) are judged against the coordinates the grids report at each step."),
-    note=_TB + "Modelled, not verified: sklearn BallTree (assumed = brute force, validated per case), haversine = great-circle angle (formula "
+          "coordinate type, all three source kinds) are judged against the coordinates the grids report at each step. For every case outside the histories the tree's answer is obtained through the same public call (get_ball_tree(..., reconstruct=True).query) and judged by knnAnswerB, and the output must equal the code's formula applied to that answer (exact for NN, 1e-10 for IDW); calls omitting all optional arguments are judged against the regenerated Gen/Defaults; the eps literal is read from the source text each run."),
+    note=_TB + "Modelled, not verified: haversine = great-circle angle (formula "
          "identity not proved here; see C11), IEEE rounding (tolerances 1e-9 convexity/weights, 1e-6 model agreement), NumPy fancy "
-         "indexing/broadcasting, the literal eps=1e-6 is a model parameter (theorems hold for every eps>0). Two findings rooted in coordinates.py (degrees passed to a radians function) "
-         "were repaired there (dae7aac7, a9b70212).",
+         "indexing/broadcasting, theorems hold for every eps>0; the driver uses the eps literal read from the source text and the regenerated default arguments. Two findings rooted in coordinates.py (degrees passed to a radians function) "
+         "were repaired there (dae7aac7, a9b70212). Modelled, not verified: equality of remap values with the brute-force model when several sources are exactly equally far (spec-level clauses are proved without this hypothesis). Not exercisable here: the UxDataset-level remap paths (_nearest_neighbor_uxds, _inverse_distance_weighted_remap_uxds), because UxDataset construction raises under the installed xarray; they loop over the UxDataArray path judged here.",
     technique="Lean 4 theorems over a generic ordered-field model + differential correspondence with Lean-evaluated specs and Lean brute-force oracle",
 )
 
